@@ -361,7 +361,11 @@ func fp2Body() func(*engine.X) {
 		var r bls12381.BaseFieldElementG2
 		ok := r.V.Sqrt(&a.lib.V) == 1
 		if ok != Q.IsSquare(a.v) {
-			x.Failf("fp2/sqrt/existence", "Fp2 %s: Sqrt ok=%v but the element is a square: %v (norm residuosity)", u, ok, Q.IsSquare(a.v))
+			key := "fp2/sqrt/existence"
+			if a.v.C1.Sign() == 0 && !ok {
+				key = "fp2/sqrt/c1=0" // elements of the prime subfield: every one of them has a root in F_p^2
+			}
+			x.Failf(key, "Fp2 %s: Sqrt ok=%v but the element is a square: %v (norm residuosity)", u, ok, Q.IsSquare(a.v))
 		} else if ok {
 			if rv := val(&r); !Q.Equal(Q.Sqr(rv), a.v) {
 				x.Failf("fp2/sqrt/value", "Fp2 %s: Sqrt = %s whose square is %s", u, Q.String(rv), Q.String(Q.Sqr(rv)))
@@ -396,7 +400,7 @@ func fp2Body() func(*engine.X) {
 // ---------------------------------------------------------------------------------------------------------------
 
 func runField[W libFE[W]](c *primeFieldCtx[W]) {
-	engine.Explore(primeFieldBody(c), engine.Opts{Name: "field/" + c.name, Budget: budget(60, 300)})
+	explore(primeFieldBody(c), engine.Opts{Name: "field/" + c.name, Budget: budget(60, 300)})
 }
 
 func runFields() {
@@ -420,5 +424,5 @@ func runFields() {
 		sqrtVia[*blsImpl.Fp, blsImpl.Fp, *bls12381.BaseFieldElementG1, bls12381.BaseFieldElementG1]})
 	runField(&primeFieldCtx[*bls12381.Scalar]{"bls12381.Fq", curve.BLS12381G1().Q, bls12381.NewScalarField(),
 		sqrtVia[*blsImpl.Fq, blsImpl.Fq, *bls12381.Scalar, bls12381.Scalar]})
-	engine.Explore(fp2Body(), engine.Opts{Name: "field/bls12381.Fp2", Budget: budget(60, 300)})
+	explore(fp2Body(), engine.Opts{Name: "field/bls12381.Fp2", Budget: budget(60, 300)})
 }
